@@ -136,7 +136,7 @@ class SymFS:
         self.ex = ex
         self.kmemo = {}
         self.tmemo = {}
-        self.cwd = ROOT
+        self.cwd = '/'            # NOT the tree root: a path wrongly resolved against the working directory instead of root_dir must show
         self.fds = {}
         self.next_fd = 1000
         self.scans = []            # (resolved dir slot path, path as given)
@@ -289,6 +289,11 @@ class SymFS:
         return ROOT + '/' + tg if tg else (ROOT if tg == '' else ROOT + '/__dangling__')
 
     def open(self, path, flags, mode=0o777, *, dir_fd=None):
+        if flags & getattr(os, 'O_NOFOLLOW', 0):
+            # O_NOFOLLOW: the final component must not be a symbolic link (ELOOP), whatever it points to
+            k0, _ = self.resolve(self._base(path, dir_fd), False)
+            if k0 == LINK:
+                raise OSError(errno.ELOOP, 'Too many levels of symbolic links', os.fspath(path))
         k, slot = self.resolve(self._base(path, dir_fd), True)
         if k != DIR:
             raise NotADirectoryError(errno.ENOTDIR, os.fspath(path))
